@@ -16,8 +16,8 @@ func ReadClock() int64 {
 	v := NowNS
 	if TickOn {
 		NowNS++
-		if s := active; s != nil && s.running != nil {
-			s.running.ClockReads = append(s.running.ClockReads, v)
+		if t := Cur(); t != nil {
+			t.ClockReads = append(t.ClockReads, v)
 		}
 	}
 	return v
